@@ -136,13 +136,58 @@ INIT = [init_segment('live'), init_segment('vod')]
 
 # ----------------------------------------------------------------------------- locations -> hooks
 class Locations:
-    """the set of DrmLocation members asked for: only membership is observed"""
+    """a set of DrmLocation members whose membership is symbolic (the set asked for, or a set computed from it)"""
+    py_types = ('set', 'frozenset', 'AbstractSet')
 
-    def __init__(self, w):
+    def __init__(self, w, members=None):
         self.w = w
+        self.members = members if members is not None else {'moov': w['loc_moov'], 'cenc': w['loc_cenc'], 'pro': w['loc_pro']}
+
+    def clone_model(self):
+        return Locations(self.w, dict(self.members))
 
     def contains(self, eng, item):
-        return self.w[{'moov': 'loc_moov', 'cenc': 'loc_cenc', 'pro': 'loc_pro'}[item]]
+        return self.members.get(item, z3.BoolVal(False))
+
+    def truthy(self):
+        return z3.Or(*self.members.values()) if self.members else z3.BoolVal(False)
+
+    def _of(self, other):
+        if isinstance(other, Locations):
+            return other.members
+        if isinstance(other, (set, frozenset)):
+            return {k: z3.BoolVal(True) for k in other}
+        if isinstance(other, PyList):
+            return {k: z3.BoolVal(True) for k in other.items}
+        raise Unsupported('set operation with an unmodelled operand')
+
+    def set_op(self, eng, name, other):
+        a, b = self.members, self._of(other)
+        f = z3.BoolVal(False)
+        if name in ('intersection', '__and__'):
+            return Locations(self.w, {k: z3.And(a[k], b[k]) for k in a if k in b})
+        if name in ('union', '__or__'):
+            return Locations(self.w, {k: z3.Or(a.get(k, f), b.get(k, f)) for k in set(a) | set(b)})
+        if name == 'difference':
+            return Locations(self.w, {k: z3.And(a[k], z3.Not(b.get(k, f))) for k in a})
+        if name == 'rdifference':
+            return Locations(self.w, {k: z3.And(b[k], z3.Not(a.get(k, f))) for k in b})
+        raise Unsupported(f'set.{name}')
+
+    def method(self, eng, name, args, kwargs, e):
+        if name in ('intersection', 'union', 'difference') and len(args) == 1:
+            return self.set_op(eng, name, args[0])
+        raise Unsupported(f'set.{name}')
+
+    def binop(self, eng, op, other, swapped):
+        import ast as _ast
+        if isinstance(op, _ast.BitAnd):
+            return self.set_op(eng, 'intersection', other)
+        if isinstance(op, _ast.BitOr):
+            return self.set_op(eng, 'union', other)
+        if isinstance(op, _ast.Sub):
+            return self.set_op(eng, 'rdifference' if swapped else 'difference', other)
+        raise Unsupported('set operator')
 
 
 LOC_ATTRS = {'attr:DrmLocation.MOOV': lambda eng: 'moov', 'attr:DrmLocation.CENC': lambda eng: 'cenc',
